@@ -162,8 +162,10 @@ impl MemTable {
 	/// * `batch` - The batch of operations to apply
 	/// * `starting_seq_num` - The starting sequence number for this batch (records get consecutive
 	///   numbers)
-	/// Upper bound of the arena space `batch` needs in an EMPTY memtable (head and tail
-	/// nodes included). A batch above the configured memtable size can never be applied.
+	/// Upper bound of the arena space `add` asks for when it applies `batch` to an EMPTY
+	/// memtable (head and tail nodes included, and the room `add` keeps behind the last
+	/// allocation, whatever tower heights it draws). A batch above the configured
+	/// memtable size can never be applied.
 	pub(crate) fn arena_upper_bound(batch: &Batch) -> usize {
 		let per_entry = skiplist::max_entry_overhead();
 		1 + 2 * per_entry
@@ -172,6 +174,7 @@ impl MemTable {
 				.iter()
 				.map(|e| per_entry + e.key.len() + e.value.as_ref().map_or(0, |v| v.len()))
 				.sum::<usize>()
+			+ Skiplist::max_unused_tower()
 	}
 
 	pub(crate) fn add(&self, batch: &Batch) -> Result<()> {
